@@ -305,11 +305,11 @@ theorem opens0_commitOrInsert (sh : Shared D L) (ch : Nat) : Opens0 (commitOrIns
   · exact opens0_withCom_absorb _ _
 
 theorem opens0_inputChar (sh : Shared D L) (ev : KeyEvent) : Opens0 (inputChar sh ev) := by
-  unfold inputChar fullOrPanic
+  unfold inputChar fullOrBell
   repeat' split
   all_goals first
     | exact opens0_commitOrInsert _ _
-    | exact opens0_panic _
+    | opens0_leaf
 
 theorem opens0_chineseFallback (sh : Shared D L) (ev : KeyEvent) : Opens0 (chineseFallback sh ev) := by
   unfold chineseFallback
